@@ -861,3 +861,21 @@ Theorem read_whole_frames_refuted :
 Proof.
   exists (opened c_SFM_READ 3 [128; 128; 129; 0] 1), 9. vm_compute. repeat split; try reflexivity; discriminate.
 Qed.
+
+(** C15: whatever part of a write the I/O layer accepts (any [lim], including nothing), the items stored before the write
+    position are not touched -- "data accepted before the failure is not corrupted by later calls" at the item level *)
+Theorem write_any_outcome_keeps_prefix fv n lim xs s k :
+  0 <= k -> k <= len (data s) ->
+  k <= (if last_op s =? c_SFM_WRITE then cur s else wcur s * ch s) ->
+  firstn (Z.to_nat k) (data (fst (api_write fv n lim xs s))) = firstn (Z.to_nat k) (data s).
+Proof.
+  intros Hk Hl Hc. unfold api_write.
+  destruct (n =? 0); [reflexivity|].
+  destruct (n <? 0); [reflexivity|].
+  destruct (mode s =? c_SFM_READ); [reflexivity|].
+  destruct (negb fv && negb (Z.rem n (ch s) =? 0)); [reflexivity|].
+  cbn [fst data].
+  match goal with |- context [if ?c then data s else _] => destruct c; [reflexivity|] end.
+  apply firstn_overwrite_before; [|exact Hl].
+  split; [exact Hk|]. destruct (last_op s =? c_SFM_WRITE); [exact Hc|]. unfold codec_seek, set_cur. cbn [cur]. exact Hc.
+Qed.
